@@ -686,3 +686,61 @@ def check_iter_order(prog, rep, rule='R-iter-order'):
                               line=node.lineno, file=mod.path)
     rep.ok(rule, '<package>', '%d loops / comprehensions scanned' % n)
     return n
+
+
+# ---------------------------------------------------------------------------
+def check_rand_ctor(prog, rep, rule='R-seed-ctor', qual='utils._rand'):
+    """In the seed normaliser every constructed generator receives the seed;
+    an unseeded construction is allowed only under  seed is None ."""
+    fn = prog.func(qual)
+    mod = fn.module
+    seedp = fn.params[0] if fn.params else 'seed'
+    n = 0
+    for node in ast.walk(fn.node):
+        if isinstance(node, ast.Call):
+            d = prog.dotted(node.func) or ''
+            r = prog.resolve_dotted(mod, d)
+            if not (r and r[0] == 'ext' and r[1].startswith('numpy.random.')):
+                continue
+            n += 1
+            passes = any(isinstance(a, ast.Name) and a.id == seedp
+                         for a in node.args) or any(
+                isinstance(k.value, ast.Name) and k.value.id == seedp
+                for k in node.keywords)
+            gs = paths.guards_of(fn.node, node)
+            construct = model.norm_src(mod, node)
+            if passes:
+                # the guard must admit every int: truthiness tests lose seed 0
+                truthy = [t for t, pol in gs
+                          if isinstance(t, ast.Name) and t.id == seedp] + \
+                         [t for t, pol in gs
+                          if isinstance(t, ast.UnaryOp) and
+                          isinstance(t.op, ast.Not) and
+                          isinstance(t.operand, ast.Name) and
+                          t.operand.id == seedp]
+                if truthy:
+                    rep.violation(rule, qual, construct,
+                                  'the seeded construction is guarded by the '
+                                  'truth value of the seed: seed 0 is treated '
+                                  'like "no seed"', line=node.lineno,
+                                  file=mod.path)
+                else:
+                    rep.ok(rule, qual, construct)
+            else:
+                only_none = any(
+                    pol and isinstance(t, ast.Compare) and
+                    isinstance(t.left, ast.Name) and t.left.id == seedp and
+                    isinstance(t.ops[0], ast.Is) and
+                    isinstance(t.comparators[0], ast.Constant) and
+                    t.comparators[0].value is None for t, pol in gs)
+                if only_none:
+                    rep.ok(rule, qual, construct, detail='under seed is None')
+                else:
+                    rep.violation(rule, qual, construct,
+                                  'a generator is constructed without the '
+                                  'seed on a path that is not restricted to '
+                                  '"seed is None" (e.g. integer seed 0 would '
+                                  'give fresh entropy)', line=node.lineno,
+                                  file=mod.path)
+    if n == 0:
+        rep.error('%s: no generator construction found' % qual)
